@@ -38,7 +38,8 @@ fn deep() -> bool { std::env::var("VERIF_COMPANION_DEEP").is_ok() }
 
 // ---------------------------------------------------------------- instrumented output
 #[derive(Default)]
-struct RecOut { data: Vec<u8>, pos: u64, seek_target: Option<u64>, writes: Vec<(u64, Vec<u8>)>, write_limit: Option<usize> }
+struct RecOut { data: Vec<u8>, pos: u64, seek_target: Option<u64>, writes: Vec<(u64, Vec<u8>)>, write_limit: Option<usize>,
+               cap: usize /* max bytes accepted per poll_write (0 = no cap): an AsyncWrite may take only part of a buffer */ }
 impl AsyncRead for RecOut {
     fn poll_read(mut self: Pin<&mut Self>, _cx: &mut Context<'_>, buf: &mut ReadBuf<'_>) -> Poll<std::io::Result<()>> {
         let p = (self.pos as usize).min(self.data.len());
@@ -51,6 +52,7 @@ impl AsyncRead for RecOut {
 impl AsyncWrite for RecOut {
     fn poll_write(mut self: Pin<&mut Self>, _cx: &mut Context<'_>, buf: &[u8]) -> Poll<std::io::Result<usize>> {
         if let Some(l) = self.write_limit { if self.writes.len() >= l { return Poll::Ready(Err(std::io::ErrorKind::Other.into())); } }
+        let buf = if self.cap > 0 && buf.len() > self.cap { &buf[..self.cap] } else { buf };
         let p = self.pos as usize;
         if self.data.len() < p + buf.len() { self.data.resize(p + buf.len(), 0); }
         self.data[p..p + buf.len()].copy_from_slice(buf);
@@ -84,6 +86,7 @@ struct Scenario {
     prior: Vec<Seg>,            // prior output
     seeds: Vec<Vec<usize>>,     // chunk ids per seed (ids >= sizes.len() are chunks unrelated to the source alphabet)
     hash_len: usize,
+    cap: usize,                 // the output accepts at most this many bytes per poll_write (0 = unlimited)
 }
 #[derive(Clone, Copy, Debug, PartialEq)]
 enum Seg { Chunk(usize), Junk(usize) }
@@ -114,7 +117,7 @@ fn run_clone(sc: &Scenario, prior_bytes: Vec<u8>, scan: &[(usize, u64)], write_l
         for &(id, o) in scan {
             output_index.add_chunk(verified(id, size_of(id)).hash().clone(), size_of(id), &[o]);
         }
-        let out = RecOut { data: prior_bytes, write_limit, ..Default::default() };
+        let out = RecOut { data: prior_bytes, write_limit, cap: sc.cap, ..Default::default() };
         let mut output = CloneOutput::new(out, clone_index);
         let mut err = None;
         let mut fetched = vec![];
@@ -178,7 +181,7 @@ fn judge(sc: &Scenario) {
     let src_len = off;
     let in_place: BTreeSet<u64> = scan.iter().filter(|(id, o)| offsets_of.get(id).map_or(false, |v| v.contains(o))).map(|&(_, o)| o).collect();
     let mut written = BTreeSet::new();
-    for (at, bytes) in &o.writes {
+    for (at, bytes) in o.writes.iter().filter(|_| sc.cap == 0) {
         let ok = offsets_of.iter().any(|(&id, offs)| offs.contains(at) && *bytes == chunk_bytes(id, sc.sizes[id]));
         if !ok { found.push(("C13", "a write is not one source chunk's bytes at one of its source offsets", format!("write at {} of {:02x?} :: {}", at, bytes, d()))); break; }
         if at + bytes.len() as u64 > src_len { found.push(("C13", "a write reaches beyond the source length", format!("write at {} len {} :: {}", at, bytes.len(), d()))); break; }
@@ -232,7 +235,7 @@ fn c03_in_place_exhaustive() {
             for prior in sequences(&segs(3, &[1, 3]), 4) {
                 n += 1;
                 if n % stride != 0 { continue; }
-                judge(&Scenario { sizes: sizes.clone(), source: source.clone(), prior, seeds: vec![], hash_len: 64 });
+                judge(&Scenario { sizes: sizes.clone(), source: source.clone(), prior, seeds: vec![], hash_len: 64, cap: 0 });
                 cases += 1;
             }
         }
@@ -251,7 +254,7 @@ fn c02_seeds_exhaustive() {
                 for seed_a in sequences(&[0usize, 1, 2, 7], 2) {
                     for seed_b in [vec![], vec![2usize, 0], vec![7, 1]] {
                         for prior in [vec![], vec![Seg::Chunk(1), Seg::Junk(3), Seg::Chunk(0)], vec![Seg::Junk(2), Seg::Chunk(2), Seg::Chunk(2)]] {
-                            judge(&Scenario { sizes: sizes.clone(), source: source.clone(), prior, seeds: vec![seed_a.clone(), seed_b.clone()], hash_len });
+                            judge(&Scenario { sizes: sizes.clone(), source: source.clone(), prior, seeds: vec![seed_a.clone(), seed_b.clone()], hash_len, cap: 0 });
                             cases += 1;
                         }
                     }
@@ -275,7 +278,8 @@ fn c03_random_layouts() {
         let prior: Vec<Seg> = (0..rng.below(15)).map(|_| if rng.below(5) == 0 { Seg::Junk(1 + rng.below(6) as usize) } else { Seg::Chunk(rng.below(k as u64) as usize) }).collect();
         let seeds: Vec<Vec<usize>> = (0..rng.below(3)).map(|_| (0..rng.below(4)).map(|_| rng.below(k as u64) as usize).collect()).collect();
         let hash_len = [64usize, 16, 4][rng.below(3) as usize];
-        judge(&Scenario { sizes, source, prior, seeds, hash_len });
+        let cap = if rng.below(4) == 0 { 1 + rng.below(4) as usize } else { 0 };
+        judge(&Scenario { sizes, source, prior, seeds, hash_len, cap });
     }
     println!("COMPANION-OK cases={}", budget);
 }
@@ -293,7 +297,7 @@ fn c05_crash_and_rerun() {
         (vec![5, 1, 2], vec![1, 0, 2, 1], vec![Seg::Chunk(2), Seg::Chunk(2), Seg::Chunk(0), Seg::Chunk(1)]),
     ];
     for (sizes, source, prior) in layouts {
-        let sc = Scenario { sizes, source, prior, seeds: vec![], hash_len: 64 };
+        let sc = Scenario { sizes, source, prior, seeds: vec![], hash_len: 64, cap: 0 };
         let (prior_bytes, scan, source_bytes) = layout(&sc);
         let full = run_clone(&sc, prior_bytes.clone(), &scan, None);
         if full.err.is_some() || full.data != source_bytes { witness("C03", "uninterrupted run is wrong", format!("{:?}", sc)); }
@@ -367,6 +371,33 @@ fn c02_lookup_is_exact_on_the_truncated_key() {
                 cases += 1;
             }
         }
+    }
+    println!("COMPANION-OK cases={}", cases);
+}
+
+/// the index keeps, per chunk, the SET of its offsets in ascending order whatever the order and multiplicity in which they are
+/// added (ChunkIndex::add_chunk / ChunkLocation::add_offset_sorted through the public API): random add sequences
+#[test]
+fn c13_offsets_are_a_sorted_set() {
+    let mut rng = Rng(seed() ^ 0x1313);
+    let mut cases = 0usize;
+    for _ in 0..4000 {
+        let mut index = ChunkIndex::new_empty(64);
+        let mut model: BTreeMap<usize, BTreeSet<u64>> = BTreeMap::new();
+        for _ in 0..1 + rng.below(6) {
+            let id = rng.below(3) as usize;
+            let offs: Vec<u64> = (0..rng.below(5)).map(|_| rng.below(6) * 10).collect();
+            index.add_chunk(verified(id, 4).hash().clone(), 4, &offs);
+            model.entry(id).or_default().extend(offs.iter().copied());
+        }
+        for (id, set) in &model {
+            let got: Option<Vec<u64>> = index.offsets(verified(*id, 4).hash()).map(|i| i.collect());
+            let want: Vec<u64> = set.iter().copied().collect();
+            if got != Some(want.clone()) {
+                witness("C13", "the offsets recorded for a chunk are not the ascending set of the offsets added", format!("chunk {} got {:?} want {:?}", id, got, want));
+            }
+        }
+        cases += 1;
     }
     println!("COMPANION-OK cases={}", cases);
 }
